@@ -288,6 +288,7 @@ def run(chk):
         run_history(chk, binp, steps, rng.below(1 << 30), strace=(h == 0))
         if len(chk.violations) + len(chk.disagreements) > 12:
             break
+    slow_acl(chk, binp)
     if chk.counts.get("key_files_with_canary", 0) < 3 or chk.counts.get("signed_requests", 0) < 1:
         chk.broken.append({"kind": "gate", "name": "generator sanity", "why": "too few latched keys / signed requests: %r" % dict(chk.counts)})
     chk.coverage["rule"] = ("histories of polls (status error/malformed/doc naming no, the current, a stored or an unknown guid; acquire "
@@ -426,12 +427,14 @@ def run_history(chk, binp, steps, salt, strace=False):
             elif kind == "abort":
                 # clients hang up while their requests wait for the (slowed) actors: whatever the agent logs about the undeliverable
                 # replies goes through the same sinks
-                real.st.ctl("slowall 3000")
                 try:
-                    for j in range(10):
+                    for j in range(16):
+                        if j % 8 == 0:
+                            # first the key keeper's state actor is the slow one (rules and key reads are answered late), then the status actor
+                            real.st.ctl("slowactor key_keeper 6000" if j == 0 else "slowactor agent_status 4000")
                         c = real.st.connect(audit=(0, real.caller, 1, "168.63.129.16", 80))
                         c.send(e2e.build_request("GET", "/machine?comp=goalstate&abort=%d" % j, [(b"Host", b"168.63.129.16")]))
-                        time.sleep(0.004 * (j % 10))
+                        time.sleep(0.004 * (j % 8))
                         c.close(rst=True)
                     time.sleep(0.25)
                 finally:
@@ -499,6 +502,66 @@ def run_history(chk, binp, steps, salt, strace=False):
                 r.close()
             except Exception:
                 pass
+        shutil.rmtree(work, ignore_errors=True)
+
+
+def slow_acl(chk, binp):
+    """restricting the key directory is slow (changing owner and mode take 250 ms each: a busy or remote file system) on the first start
+    with a key directory that is not yet root-only: from the moment a key file exists in it, the directory must be root-only"""
+    import subprocess
+    import threading
+    so = os.path.join(vlib.VERIF, ".cache", "slowacl.so")
+    cc = subprocess.run(["clang", "-shared", "-fPIC", "-O1", "-w", "-o", so, os.path.join(vlib.VERIF, "tools", "native", "slowacl.c"), "-ldl"],
+                        stdout=subprocess.PIPE, stderr=subprocess.STDOUT, text=True)
+    if cc.returncode != 0:
+        chk.notes.append("slow-acl stage skipped: the shim does not build (%s)" % cc.stdout[-200:])
+        return
+    work = vlib.scratch_dir("c12acl")
+    key_dir = os.path.join(work, "keys")
+    keys = {}
+    real = None
+    bad, seen_key = [], []
+    stop = threading.Event()
+
+    def poll():
+        while not stop.is_set():
+            try:
+                if glob.glob(key_dir + "/*.key"):
+                    st = os.stat(key_dir)
+                    if not seen_key:
+                        seen_key.append(time.time())
+                    if ((st.st_mode & 0o777) != 0o700 or st.st_uid != 0) and not bad:
+                        bad.append("mode %o uid %d" % (st.st_mode & 0o777, st.st_uid))
+            except OSError:
+                pass
+            time.sleep(0.001)
+    try:
+        os.makedirs(key_dir, exist_ok=True)
+        os.chmod(key_dir, 0o755)          # before the agent starts: a key directory left by an installation that did not restrict it
+        real = Real(binp, key_dir, ["env", "LD_PRELOAD=" + so, "VERIF_SLOW_ACL_MS=250"])
+        th = threading.Thread(target=poll, daemon=True)
+        th.start()
+        if not real.kp.wait_at_gate(timeout=10):
+            chk.broken.append({"kind": "harness", "name": "keeper start (slow acl)", "why": "no status request"})
+            return
+        step = ("poll", ("K", None, "wireserver"), ("K", 1, 1, 0), 1, ("O",))
+        plan = make_plan(step, keys, 77, chk)
+        real.kp.step(plan, kick=True)
+        time.sleep(0.8)
+        stop.set()
+        th.join(2)
+        chk.case(nontrivial_key=("slow-acl", bool(seen_key), bool(bad)))
+        chk.count("first_start_with_slow_acl")
+        if not seen_key:
+            chk.disagreement("key-files", {"stage": "slow acl"}, "the key of the first poll is stored", "no key file")
+        elif bad:
+            chk.violation("key files exist in a key directory that is not root-only",
+                          {"situation": "first start, key directory still 0755, chown/chmod each take 250 ms; host names key g-1 and hands it out"},
+                          expected="mode 0700 uid 0 from the moment a key file exists", observed=bad[0], finding_key="keydir-mode-slow-acl")
+    finally:
+        stop.set()
+        if real is not None:
+            real.close()
         shutil.rmtree(work, ignore_errors=True)
 
 
